@@ -217,7 +217,7 @@ fn byte_tables(t: &mut Tally, r: &mut Rng) {
             check_path(t, r, &p, false, "percent-pair");
         }
     }
-    for tail in ["/a%", "/a%4", "/a%4/b", "/%", "/%/", "/a/%é", "/%é0", "/a%%", "/%25", "/%2", "/%2/", "/%zz/..", "/../%zz", "/a/%", "/a/b%4"] {
+    for tail in ["/a%", "/a%4", "/a%4/b", "/%", "/%/", "/a/%é", "/%é0", "/a%%", "/%25", "/%2", "/%2/", "/%zz/..", "/../%zz", "/a/%", "/a/b%4", "/%€", "/%a€", "/%zé", "/%😀", "/a%e€b", "/%€€", "/x/%1😀/y", "/%é€"] {
         for s3 in [false, true] {
             check_path(t, r, tail, s3, "truncated-escape");
         }
